@@ -47,6 +47,7 @@ def main():
     cov.setdefault("distinct_nontrivial", 0)
     cov.setdefault("samples", [])
     cov["known_findings_reproduced"] = ctx.kf_printed
+    cov["known_class_members_seen"] = ctx.kf_classes
     vlib.write_evidence(pid, args.tier, seed, cov, wall, len(ctx.violations), ctx.assumptions)
     for kf in ctx.kf_printed:
         print("KNOWN-FINDING: property=%s %s" % (pid, kf))
@@ -70,6 +71,7 @@ class Ctx:
         self.assumptions = []
         self.violations = []
         self.kf_printed = []
+        self.kf_classes = {}
 
     @property
     def quick(self):
@@ -105,7 +107,10 @@ class Ctx:
         file lists the class for this property, a violation otherwise."""
         for f in vlib.known_findings(self.pid):
             if f.get("class") == cls:
-                self.known("%s [class %s] e.g. %s" % (f["what"], cls, example))
+                if cls not in self.kf_classes:   # one line per class; further members are counted
+                    self.kf_classes[cls] = 0
+                    self.known("%s [class %s] e.g. %s" % (f["what"], cls, example))
+                self.kf_classes[cls] += 1
                 return
         self.fail("failing input in class %s, which known_findings.json does not list" % cls, replay_data)
 
